@@ -134,6 +134,11 @@ def run(tier, seed, replay=None):
                 rep.oracle_failures.append({"clause": "a type matching no block must have no such item (expected E0599)",
                                             "rc": r["rc"], "errors": PC.error_lines(r)[:3], "program": prog, "invocation": plan.invocation_text()})
     shape.validate(rep, exe, ok_plans, PROP)
+    # families that differ only in a lifetime argument (a parameter vs a concrete lifetime) must stay separate families: function-level
+    # correspondence of the grouping on hand-shaped inherent invocations (not compiled: the item names are shared)
+    from . import groupcorr
+    from .c11 import directed_invocations
+    groupcorr.compare(rep, exe, [x for x in directed_invocations(rng) if not x[0].startswith("pub trait")], label="lifetime-instantiation")
     # the Lean model of the three generators (Expand.lean) against the real helper trait / helper impls / main impl
     from . import expandcorr
     expandcorr.compare(rep, exe, ok_plans)
